@@ -170,17 +170,17 @@ Definition on_event (c : cfg) (e : ev) (T : list state) : option (list state) :=
 
 Definition is_panic_ev (e : ev) : bool := match e with ERes _ RPanic => true | _ => false end.
 
-Fixpoint monitor (c : cfg) (i : N) (S : list state) (evs : list ev) : list (N * N) :=
-  match evs with
-  | [] => []
-  | e :: r =>
-      match on_event c e S with
-      | None => [(i, code_mismatch)]
-      | Some [] => [(i, code_mismatch)]
-      | Some S' => if is_panic_ev e then [] (* the modelled process is dead; the oracle reports it *)
-                   else monitor c (i + 1)%N S' r
-      end
+(* (a fold rather than a Fixpoint: the guard checker would otherwise unfold the fuel of [tau]) *)
+Record mon := { m_i : N; m_S : list state; m_out : list (N * N); m_done : bool }.
+Definition mon_step (c : cfg) (m : mon) (e : ev) : mon :=
+  if m_done m then m else
+  match on_event c e (m_S m) with
+  | None | Some [] => {| m_i := m_i m; m_S := []; m_out := [(m_i m, code_mismatch)]; m_done := true |}
+  | Some S' => {| m_i := (m_i m + 1)%N; m_S := S'; m_out := [];
+                  m_done := is_panic_ev e (* the modelled process is dead; the oracle reports it *) |}
   end.
+Definition monitor (c : cfg) (i : N) (S : list state) (evs : list ev) : list (N * N) :=
+  m_out (fold_left (mon_step c) evs {| m_i := i; m_S := S; m_out := []; m_done := false |}).
 
 Definition mismatch (c : case) : list (N * N) :=
   match tau current_cfg [canon (init (c_n c))] with
